@@ -1902,7 +1902,7 @@ def run(ctx):
     run_.src = read_source_constants()
     ctx.extra['source_constants'] = {k: v for k, v in run_.src.items() if k != 'coef'}
 
-    ok_t = ctx.lean_check(['Cherab.Props.C02'], 'Cherab/Audit/C02.lean')
+    ok_t = ctx.lean_check(['Cherab.Props.C02', 'Cherab.Props.C02Param'], 'Cherab/Audit/C02.lean')
 
     from cherab.core.math.integrators import GaussianQuadrature
     from cherab.core.model.lineshape.stark import StarkFunction
